@@ -34,10 +34,25 @@ theorem pixelscale_refusal (a b : Option (Int × Int)) :
 section handover
 variable {K R M : Type} [Zero K] [Mul K]
 
+/-- **what `Plane.multiply` hands over** (about the *generated* `Gen.planeMultiplyHandover`, `planeMultiplyPixelscaleArgs`,
+`planeMultiplyShape`, read off the source on every run): the new wavefront gets the incoming wavefront's wavelength and
+focal length, the reconciled pixel scale `_mul_pixelscale(plane, wavefront)`, the plane's shape unless that is `()`, and
+the data of `planeMultiply` at the incoming wavelength -/
+theorem plane_multiply_handover (phOf : M → R → K) (p : PlaneM K R) (ppx : Option (Int × Int)) (w : Wf K M) :
+    planeMultiplyW phOf p ppx w = (mulPixelscale ppx w.pixelscale).map fun px =>
+      { wavelength := w.wavelength, focal := w.focal, pixelscale := px,
+        shape := (match p.shape with | none => w.shape | some s => some s),
+        data := planeMultiply (phOf w.wavelength) p w.data } := by
+  unfold planeMultiplyW
+  simp only [Gen.planeMultiplyPixelscaleArgs, Gen.planeMultiplyHandover, Gen.planeMultiplyShape, Wf.ofHandover]
+  congr 1
+  funext px
+  cases p.shape <;> rfl
+
 /-- passing through a plane leaves the wavelength and the focal length unchanged, whatever the plane -/
 theorem plane_keeps_wavelength (phOf : M → R → K) (p : PlaneM K R) (ppx : Option (Int × Int)) (w w' : Wf K M)
     (h : planeMultiplyW phOf p ppx w = .ok w') : w'.wavelength = w.wavelength ∧ w'.focal = w.focal := by
-  unfold planeMultiplyW at h
+  rw [plane_multiply_handover] at h
   cases hp : mulPixelscale ppx w.pixelscale with
   | error e => rw [hp] at h; simp [Except.map] at h
   | ok px => rw [hp] at h; simp only [Except.map, Except.ok.injEq] at h; subst h; exact ⟨rfl, rfl⟩
@@ -51,14 +66,14 @@ theorem pupil_sets_focal_length (phOf : M → R → K) (p : PlaneM K R) (ppx : O
   cases hp : planeMultiplyW phOf p ppx w with
   | error e => rw [hp] at h; simp [Except.map] at h
   | ok w2 =>
-    rw [hp] at h; simp only [Except.map, Except.ok.injEq] at h; subst h
+    rw [hp] at h
+    simp only [Except.map, Except.ok.injEq, Gen.pupilMultiplyHandover, Wf.ofHandover, Wf.handover] at h; subst h
     exact ⟨rfl, (plane_keeps_wavelength phOf p ppx w w2 hp).1, w2, rfl, rfl, rfl, rfl⟩
 
 /-- the multiplication is refused exactly when `_mul_pixelscale` refuses -/
 theorem plane_refuses_iff (phOf : M → R → K) (p : PlaneM K R) (ppx : Option (Int × Int)) (w : Wf K M) :
     (∃ e, planeMultiplyW phOf p ppx w = .error e) ↔ ∃ x y, ppx = some x ∧ w.pixelscale = some y ∧ x ≠ y := by
-  unfold planeMultiplyW
-  rw [pixelscale_refusal]
+  rw [plane_multiply_handover, pixelscale_refusal]
   rcases ppx with _ | x <;> rcases hw : w.pixelscale with _ | y <;> simp [Except.map]
   by_cases h : x = y <;> simp [h]
 
@@ -240,7 +255,7 @@ theorem plane_multiply_exp (wavelength : ℝ) (amp : Attr ℂ) (opd : Attr ℝ) 
 theorem plane_uses_wavefront_wavelength (p : PlaneM ℂ ℝ) (ppx : Option (Int × Int)) (w w' : Wf ℂ ℝ)
     (h : planeMultiplyW (fun wl o => planePh wl o) p ppx w = .ok w') :
     w'.data = planeMultiply (planePh w.wavelength) p w.data := by
-  unfold planeMultiplyW at h
+  rw [plane_multiply_handover] at h
   cases hp : mulPixelscale ppx w.pixelscale with
   | error e => rw [hp] at h; simp [Except.map] at h
   | ok px => rw [hp] at h; simp only [Except.map, Except.ok.injEq] at h; subst h; rfl
